@@ -43,7 +43,7 @@ def all_jobs(harness, grammars, maxlen_by_nterm, extra=None, split_from=3):
     return jobs
 
 
-NEAR_BASES = {"G1": 4, "G2": 2, "G3": 3, "G4": 2, "G5": 3, "G6": 2, "G7": 3, "G8": 2, "G9": 4, "G10": 4, "G11": 2, "G12": 4, "G13": 4, "G14": 3, "G15": 4, "G16": 2, "G17": 2, "G18": 2, "G19": 4, "G20": 3, "G21": 4, "G22": 4, "G23": 3, "G24": 4, "G25": 4, "G26": 1, "G27": 2, "G28": 2, "G29": 4, "G30": 4, "G31": 4, "G32": 4, "G33": 4, "G34": 4, "G35": 4, "G36": 4, "G37": 4, "G38": 4, "G39": 2}
+NEAR_BASES = {"G1": 4, "G2": 2, "G3": 3, "G4": 2, "G5": 3, "G6": 2, "G7": 3, "G8": 2, "G9": 4, "G10": 4, "G11": 2, "G12": 4, "G13": 4, "G14": 3, "G15": 4, "G16": 2, "G17": 2, "G18": 2, "G19": 4, "G20": 3, "G21": 4, "G22": 4, "G23": 3, "G24": 4, "G25": 4, "G26": 1, "G27": 2, "G28": 2, "G29": 4, "G30": 4, "G31": 4, "G32": 4, "G33": 4, "G34": 4, "G35": 4, "G36": 4, "G37": 4, "G38": 4, "G39": 2, "G40": 2, "G41": 4, "G42": 4, "G43": 4, "G44": 2}
 
 
 def near_jobs(harness, grammars, edits, extra=None):
@@ -123,6 +123,13 @@ def sge_jobs(b, ep):
         for l0 in range(0, sg["maxl"] + 1):
             for ln in range(0, sg["maxlen"] + 1):
                 p = dict(ep); p.update({"sg": 1, "maxr": sg["maxr"], "maxl": sg["maxl"], "nrules": nr, "len0": l0, "len": ln})
+                if nr >= 2 and l0 == sg["maxl"] and ln >= 1:
+                    # the largest slices are split by the shape of the second rule
+                    for lhs1 in range(2):
+                        for l1 in range(0, sg["maxl"] + 1):
+                            q = dict(p); q.update({"lhs1": lhs1, "len1": l1})
+                            jobs.append({"harness": "hRec.c", "params": q, "weight": (5 ** sg["maxl"]) ** nr * 2 ** ln // 6})
+                    continue
                 jobs.append({"harness": "hRec.c", "params": p, "weight": (5 ** sg["maxl"]) ** nr * 2 ** ln})
     return jobs
 
@@ -146,7 +153,7 @@ def simple_plan(prop, harness, rule, assumptions, extra_params=None, sg_prop=Non
         if harness == "hRec.c":
             jobs += sge_jobs(b, ep)
         w = dict(ep); w.update({"grammar": GIDX[b["grammars"][0]], "len": 3, "first": -1, "witness": 1})
-        return {"jobs": jobs, "witness": [{"harness": harness, "params": w}], "bounds": b, "rule": rule + (REP_RULE if "rep" in b else "") + (AGAIN_RULE if "extra_all" in b else "") + (SG_RULE if sg_prop else ""), "assumptions": assumptions}
+        return {"jobs": jobs, "witness": [{"harness": harness, "params": w}], "bounds": b, "defs": tuple(b.get("defs", ())), "rule": rule + (REP_RULE if "rep" in b else "") + (AGAIN_RULE if "extra_all" in b else "") + (SG_RULE if sg_prop else ""), "assumptions": assumptions}
     return plan
 
 
@@ -204,17 +211,18 @@ def plan_C15(tier, seed):
             jobs.append({"harness": "hC15.c", "params": {"mode": 1, "codeset": cs, "ntok": n}, "weight": 10})
     wit = [{"harness": "hC15.c", "params": {"mode": 2, "witness": 1}}]
     return {"jobs": jobs, "witness": wit, "bounds": b,
-            "rule": "mode 0: one state per setter, both arguments symbolic over all int; mode 1: one state = (declared code set: dense with holes / sparse (hash table) / single / containing 0 / six codes, position of the symbolic token, lookahead, recovery) x one class of the 2^32 token codes that the lookup distinguishes, each class decided by one query; mode 2: four call sequences",
+            "rule": "mode 0: one state per setter, both arguments symbolic over all int; mode 1: one state = (declared code set: dense with holes / sparse (hash table) / single / containing 0 / six codes, position of the symbolic token, lookahead, recovery) x one class of the 2^32 token codes that the lookup distinguishes, each class decided by one query; mode 2: eight call sequences (undefined grammar, allocator contract, error-state order, two objects, invalid token then good parse, settings across a successful parse and across a parse that runs out of memory at any internal allocation - all five setter arguments symbolic over all int)",
             "assumptions": []}
 
 
 def plan_C14(tier, seed):
     b = BOUNDS["C14"][tier]
     jobs = [{"harness": "hC14.c", "params": {"steps": k, "objects": n}, "weight": (15 * n) ** k} for (k, n) in b["histories"]]
+    jobs += [{"harness": "hC14.c", "params": {"steps": k, "objects": n, "g0": GIDX[g0], "g1": GIDX[g1]}, "weight": (15 * n) ** k} for (k, n, g0, g1) in b.get("other_pools", [])]
     jobs += [{"harness": "hC14.c", "params": {"steps": k, "objects": n, "predef": 1, "la0": la, "g0": GIDX[g0]}, "weight": (15 * n) ** k} for (k, n, la, g0) in b.get("predefined", [])]
     wit = [{"harness": "hC14.c", "params": {"steps": 2, "objects": 1, "witness": 1}}]
     return {"jobs": jobs, "witness": wit, "bounds": b,
-            "rule": "one state = one history of `steps' API calls over `objects' grammar objects; each call is one of 15 actions (create, free, 6 definitions of which 4 are defective, 3 setting changes, parse of one of three sentences / a non-sentence) on a symbolic target; `predefined' histories start with objects that already have a good definition under the stated lookahead level; the trees of a parse are released before the next call; histories that call an action on a non-existing object are pruned by assumption",
+            "rule": "one state = one history of `steps' API calls over `objects' grammar objects; each call is one of 15 actions (create, free, 6 definitions of which 4 are defective, 3 setting changes, parse of one of three sentences / a non-sentence) on a symbolic target; the good definitions are G3 and G10 (`other_pools': other pairs with different numbers of terminals); `predefined' histories start with objects that already have a good definition under the stated lookahead level; the trees of a parse are released before the next call; histories that call an action on a non-existing object are pruned by assumption",
             "assumptions": ["reference for each call: the same call on a fresh object given only the target's current definition and settings", "built-in VM memory checks (use after free, double free, leaks via live-block count) are part of this check"]}
 
 
@@ -230,9 +238,10 @@ def plan_C17(tier, seed):
     # inputs and grammars large enough for the growing arrays to be reallocated
     jobs.append({"harness": "hC17.c", "params": {"scenario": 2, "grammar": GIDX["G1"], "base": 3, "edits": 0}, "weight": 500})
     jobs.append({"harness": "hC17.c", "params": {"scenario": 3, "grammar": 0, "len": 0, "nterm": b.get("big_terms", 70)}, "weight": 300})
+    jobs.append({"harness": "hC17.c", "params": {"scenario": 4, "grammar": 0, "len": 0, "nterm": b.get("big_terms", 70)}, "weight": 300})
     wit = [{"harness": "hC17.c", "params": {"scenario": 1, "how": 0, "grammar": 0, "len": 0, "witness": 1}}]
     return {"jobs": jobs, "witness": wit, "bounds": b,
-            "rule": "one state = (scenario: create / definition by callbacks, by text, defective, text with syntax error / parse of a token sequence under one of 24 configurations [/ with a second healthy object alive], index k of the failing libc allocation); k is symbolic in [0, A) where A is the number of allocations of the fault-free call measured in the same path",
+            "rule": "one state = (scenario: create / definition by callbacks, by text, defective, text with syntax error / parse of a token sequence under one of 24 configurations [/ with a second healthy object alive] / definition of a 70-terminal grammar / parse with that grammar (tables that outgrow the initial object-stack segments at once), index k of the failing libc allocation); k is symbolic in [0, A) where A is the number of allocations of the fault-free call measured in the same path",
             "assumptions": ["the caller's parse_alloc never fails (static arena)", "single failure per call; the failing request is malloc/calloc/realloc of the C library"]}
 
 
@@ -307,7 +316,7 @@ def plan_C12(tier, seed):
         jobs.append({"harness": "hC10.c", "params": {"family": 0, "nterm": n}, "weight": 6 ** n})
     jobs.append({"harness": "hC10.c", "params": {"family": 2}, "weight": 50})
     wit = [{"harness": "hC12.c", "params": {"mode": 0, "witness": 1}}]
-    return {"jobs": jobs, "witness": wit, "bounds": b,
+    return {"jobs": jobs, "witness": wit, "bounds": b, "defs": tuple(b.get("defs", ())),
             "rule": "one state = one path of one of the harnesses: dedicated jobs (symbol names of 0..300 characters in five defect messages; 200 terminals with dense or sparse codes and a token code symbolic over all int; all setter arguments symbolic incl. recovery_match <= 0 and debug levels) plus the scenario classes of C01, C04, C06-C08, C10, C11, C13, C15 in fault-only mode; counted are the VM's built-in faults (out of bounds, use after free, double free, uninitialised use, signed overflow, division by zero, over-wide shift, NULL dereference, abort/exit, instruction budget) and the C12-labelled assertions",
             "assumptions": ["instruction budget 400 M per path stands for 'returns in bounded time'", "uninitialised-memory tracking is byte-precise with conservative propagation through arithmetic; a report counts only if the native sanitizer run also faults"]}
 
